@@ -39,20 +39,24 @@ var run0 = time.Now()
 // covState: what has been measured so far (the evidence is assembled from it by
 // finish, normally at the end, by the stall watchdog if a case never returns).
 type covState struct {
-	mu      sync.Mutex
-	once    sync.Once
-	skipped string
-	caps    []string
-	nMitm   int
-	nAuth   int
-	nAdmit  int
-	nLong   int
-	chans   []*chanStats // [0] = full alphabet, [1] = core alphabet
-	mres    map[string]interface{}
-	timing  map[string]float64
-	maxW    int
-	maxR    int
-	depth   [2]int
+	mu       sync.Mutex
+	once     sync.Once
+	skipped  string
+	caps     []string
+	nMitm    int
+	nAuth    int
+	nAdmit   int
+	nHist    int
+	nRelay   int
+	relayWhy string
+	histB    map[string]interface{}
+	nLong    int
+	chans    []*chanStats // [0] = full alphabet, [1] = core alphabet
+	mres     map[string]interface{}
+	timing   map[string]float64
+	maxW     int
+	maxR     int
+	depth    [2]int
 }
 
 // the sizes of the first version of this exploration: it is carried one level
@@ -82,7 +86,7 @@ func main() {
 		}
 	}
 
-	// debugging aid only: C20_SKIP=stream,mitm,chan,admit,mconn,long leaves parts out (evidence then says exhaustive=false)
+	// debugging aid only: C20_SKIP=stream,mitm,relay,chan,admit,hist,mconn,long leaves parts out (evidence then says exhaustive=false)
 	cov.skipped = os.Getenv("C20_SKIP")
 	skip := func(p string) bool { return strings.Contains(cov.skipped, p) }
 	progress := func(what string) {
@@ -139,6 +143,15 @@ func main() {
 	cov.nAuth = len(ac)
 	core.Par(len(ac), func(i int) { c.runAuth(ac[i]) })
 	c.samples.Add(ac[2])
+	rc := relayCases()
+	if skip("relay") {
+		rc = nil
+	}
+	cov.nRelay = len(rc)
+	core.Par(len(rc), func(i int) { c.runRelay(rc[i]) })
+	if len(rc) > 0 {
+		c.samples.Add(rc[0])
+	}
 	timed("mitm+auth", t0)
 
 	// (a) long honest streams
@@ -168,6 +181,21 @@ func main() {
 		}
 	})
 	timed("admission", t2)
+
+	// (c') admission histories
+	t6 := time.Now()
+	hc, hb := allAdmitHistCases(run.Quick())
+	if skip("hist") {
+		hc = nil
+	}
+	cov.nHist, cov.histB = len(hc), hb
+	core.Par(len(hc), func(i int) {
+		c.runAdmitHist(hc[i])
+		if i%4999 == 0 {
+			c.samples.Add(hc[i])
+		}
+	})
+	timed("admission-histories", t6)
 
 	// (b') conformance subset on started MConnections
 	t3 := time.Now()
@@ -258,23 +286,24 @@ func (c *ctx) finishOnce(aborted string) {
 	}
 	// states that both explorations found (looked up by deduplication key) are counted once
 	chanStates := int(cs[0].states) + int(cs[1].states) - int(cs[1].overlap)
-	nFixed := cov.nMitm + cov.nAuth + cov.nLong + cov.nAdmit
+	nFixed := cov.nMitm + cov.nAuth + cov.nRelay + cov.nLong + cov.nAdmit + cov.nHist
 	evals := int(atomic.LoadInt64(&c.evals))
 	c.run.Finish(core.Coverage{
 		"states":                        chanStates + nStream + nFixed,
 		"transitions":                   evals,
 		"traces_validated_against_impl": evals,
 		"evaluations":                   evals,
-		"distinct_nontrivial":           int(c.streamNontrivial) + int(c.mitmApplied) + cov.nAuth + cov.nLong + chanStates + cov.nAdmit,
+		"distinct_nontrivial":           int(c.streamNontrivial) + int(c.mitmApplied) + cov.nAuth + int(atomic.LoadInt64(&c.relayMounted)) + cov.nLong + chanStates + cov.nAdmit + cov.nHist,
 		"distinct_outcome_classes":      len(cls),
 		"rule": "(a) every write-size sequence of length 1.." + fmt.Sprint(cov.maxW) + " and every read-buffer sequence of length 1.." + fmt.Sprint(cov.maxR) +
 			" over {0,1,2,1023,1024,1025,2047,2048,3000} (a read sequence is extended only while its buffers cannot yet hold all written bytes; at full length the buffers are re-used cyclically; what the enumerated buffers leave is fetched with 4096-byte reads), in both directions of a real connection made by the real handshake (at most 64 patterns back to back per connection, a probe frame in each direction after every pattern, violation artefacts carry the connection's history); " +
 			"long honest streams: both parties write " + fmt.Sprint(longFrames) + " frames (four carries out of the last byte of the frame counter, in the even and in the odd series), each reads all of it, for both orders of the ephemeral keys x 4 cyclic read-buffer profiles; " +
-			"man in the middle on either direction (what A writes | what B writes) for both orders of the ephemeral keys: every tampering kind {bit flip in authenticator/length/payload/padding, swap, replay, drop, insert, cross-session splice, truncate, cut, ephemeral-key substitution, reflection of the opposite direction's unit f-1/f/f+1} at every unit 0..4; on the long script (" + fmt.Sprint(longFrames) + " data frames in each direction) every far kind {copy of unit a delivered again before unit a+d, copy of a in the place of a+d, a and a+d exchanged, a+d moved in front of a, a moved behind a+d} for every anchor a in far_anchors (sealed handshake frame(s), first data frame(s), the frames on either side of the counter carries; handshake frames are only copied) and EVERY distance d = 1..(last unit - a); every lying auth message; " +
+			"man in the middle on either direction (what A writes | what B writes) for both orders of the ephemeral keys: every tampering kind {bit flip in authenticator/length/payload/padding, swap, replay, drop, insert, cross-session splice, truncate, cut, ephemeral-key substitution, reflection of the opposite direction's unit f-1/f/f+1} at every unit 0..4; on the long script (" + fmt.Sprint(longFrames) + " data frames in each direction) every far kind {copy of unit a delivered again before unit a+d, copy of a in the place of a+d, a and a+d exchanged, a+d moved in front of a, a moved behind a+d} for every anchor a in far_anchors (sealed handshake frame(s), first data frame(s), the frames on either side of the counter carries; handshake frames are only copied) and EVERY distance d = 1..(last unit - a); every lying auth message; an active attacker M between two honest handshakes who runs its own key exchange with each party with ephemeral keys of its choosing (one key for both sessions in position lowest|middle|highest relative to the two honest ephemeral keys, or two keys each lower|higher than the honest key of its session) x both orders of the honest keys x victim A|B, decrypts the victim's authentication message (key + signature of the challenge of the M-victim session) and delivers it re-encrypted as its own in the M-target session: the target must not return a connection authenticated as the victim (relay_attacks_mounted = cases in which M's delivery reached the target's verification); " +
 			"(b) breadth-first over all histories of {send(ch,size) 2 channels x sizes, pump(ch), poll(ch)=isSendPending only, deliver} with deduplication on (queued sizes, message in transmission+offset, receiver fill, packets on the wire, dead), every transition followed by a drain that must deliver every accepted message; run twice: sizes = chan_msg_sizes (k*1024-1, k*1024, k*1024+1 for k=1..3, 0, 1, capacity, capacity+1) to depth chan_depth_all_sizes, and sizes = chan_core_sizes to chan_depth_core_sizes (states found by both runs - looked up by the deduplication key - are counted once); " +
-			"(b') real started MConnections: every encoded size of chan_msg_sizes alone on a channel with and without a following message (completion by count: a message that is accepted and never delivered is a violation after 3 idle deadlines out of 3), pairs, mixes; the encoded size is wire.BinaryBytes of the message (checked at start); " +
+			"(b') real started MConnections: every encoded size of chan_msg_sizes alone on a channel with and without a following message (completion by count: a message that is accepted and never delivered is a violation after 3 idle deadlines out of 3), pairs, mixes; ONE large message (mconn_large_sizes = 1 MiB and the 4 MiB receive capacity of the large-channel scenarios) with nothing after it, as the first thing on the connection and on an idle connection (handed to Send only when the small message before it has been delivered), on either channel, as a byte array (encoded by one copy) and as an array of 16-bit words (encoded element by element); a second large / a small message on the connection that has become idle after a large one; capacity+1 on an idle connection; no MConnection lives long enough for a ping (40 s) and neither pings nor the statistics/flush ticks make the send routine look at the queues, so nothing but the Send itself can get a message out; the encoded size is wire.BinaryBytes of the message (checked at start); " +
 			"(c) every combination of direction (the switch under test accepts the connection | dials out) x phase x refuse-list x pub-key filter x announced-key x auth_by_ca x validator x non_validator_node_auth x signature kind x self; " +
-			"all enumerated cases are distinct by construction; distinct_nontrivial = stream patterns that write at least one byte + tampering cases in which the delivered ciphertext really differs from the genuine one + lying-auth cases + long streams + distinct channel states (by the deduplication key) + admission configurations; distinct_outcome_classes counts the distinct (part, input class, outcome) classes observed (histogram in outcome_classes)",
+			"(c') admission histories on ONE node (one State, one Switch, one authByCA closure): every applicable sequence of admission_histories.length steps over {peer key P|Q connects with a certificate by signer s} + {validator-set operation: remove-ca1, zero-power-ca1, add-ca3, restore-ca1, remove-ca3 - applied by the real AdminOp.EndBlock + State.SetBlockAndValidators}, at closure level (the closure Switch.AuthByCA calls, non_validator_node_auth off|on) and through Switch.AddPeerWithConnection (inbound|outbound; an admitted peer is disconnected before the next step); EVERY attempt of every history is judged: admitted iff the signer is an authority at that moment (histories that end with an operation are omitted: they are prefixes); " +
+			"all enumerated cases are distinct by construction; distinct_nontrivial = stream patterns that write at least one byte + tampering cases in which the delivered ciphertext really differs from the genuine one + lying-auth cases + mounted handshake-relay attacks + long streams + distinct channel states (by the deduplication key) + admission configurations + admission histories; distinct_outcome_classes counts the distinct (part, input class, outcome) classes observed (histogram in outcome_classes)",
 		"exhaustive": cov.skipped == "" && len(caps) == 0,
 		"caps":       caps,
 		"bounds": map[string]interface{}{
@@ -283,8 +312,10 @@ func (c *ctx) finishOnce(aborted string) {
 			"far_distances":        "1..(units-1-anchor), all",
 			"chan_depth_all_sizes": cov.depth[0], "chan_depth_core_sizes": cov.depth[1], "chan_msg_sizes": msgSizes, "chan_core_sizes": coreSizes,
 			"chan_send_queue": chanSendQueueCap, "chan_recv_capacity": chanRecvMsgCap,
+			"mconn_large_sizes": mconnLargeSizes, "mconn_large_recv_capacity": mconnLargeCap, "mconn_large_encodings": []string{"byte-array", "array-of-16-bit-words"},
 			"admission_directions": admitDirections, "admission_pubkey_filter": admitPKFilters,
-			"deadlines_s": map[string]float64{"handshake": handshakeDeadline.Seconds(), "mconn_idle": mconnIdleDeadline.Seconds(), "stall": stallLimit.Seconds()},
+			"admission_histories": cov.histB,
+			"deadlines_s":         map[string]float64{"handshake": handshakeDeadline.Seconds(), "mconn_idle": mconnIdleDeadline.Seconds(), "stall": stallLimit.Seconds()},
 		},
 		"stream_cases":                    nStream,
 		"stream_cases_with_leftover_read": int(c.leftoverCases),
@@ -293,10 +324,15 @@ func (c *ctx) finishOnce(aborted string) {
 		"mitm_cases":                      cov.nMitm,
 		"mitm_cases_really_tampered":      int(c.mitmApplied),
 		"auth_cases":                      cov.nAuth,
+		"relay_cases":                     cov.nRelay,
+		"relay_attacks_mounted":           int(atomic.LoadInt64(&c.relayMounted)),
+		"relay_attacks_not_mounted":       map[string]interface{}{"count": int(atomic.LoadInt64(&c.relayNotMounted)), "first_reason": cov.relayWhy},
 		"chan_states":                     chanStates,
 		"chan_all_sizes":                  chanCov(cs[0]),
 		"chan_core_sizes":                 chanCov(cs[1]),
 		"admission_cases":                 cov.nAdmit,
+		"admission_histories":             cov.nHist,
+		"admission_history_attempts":      int(atomic.LoadInt64(&c.histAttempts)),
 		"mconn_conformance":               cov.mres,
 		"outcome_classes":                 cls,
 		"samples":                         c.samples.List(),
@@ -331,6 +367,10 @@ func (c *ctx) runCase(k kase) {
 		c.runChanCase(k.Ops)
 	case "admit":
 		c.runAdmit(k)
+	case "relay":
+		c.runRelay(k)
+	case "admithist":
+		c.runAdmitHist(k)
 	case "mconn":
 		c.runMConnCase(k, true)
 	default:
